@@ -4,7 +4,7 @@ import os
 import time
 
 ROOT = os.path.dirname(os.path.dirname(os.path.abspath(__file__)))
-EVDIR = os.path.join(ROOT, "evidence")
+EVDIR = os.environ.get("VERIF_EVIDENCE_DIR") or os.path.join(ROOT, "evidence")
 
 
 class Evidence:
